@@ -9,5 +9,5 @@ def run(tier, replay):
                            mc_quick=["mc/MC_Chain_confluence"], mc_thorough=["mc/MC_Chain_confluence_t"],
                            sim_cfg="mc/MC_Chain_simemit_conf", n_quick=200, n_thorough=2500,
                            focus="HeadValidated / HeadMaxWork / HeadMonotone / Confluence / OrphansRetried: exhaustive over every fork tree of 4 (thorough 5) blocks with difficulties {1,2}, headers first, bodies in every order with duplicates; replay of random 7-block trees with 18 deliveries compares head, header head, orphan pool, stored sets after every delivery and the state roots with a twin that saw only the winning chain",
-                           extra_sims=[("mc/MC_Chain_simemit_deep", 16, 120)],
+                           extra_sims=[("mc/MC_Chain_simemit_deep", 16, 120), ("mc/MC_Chain_simemit_orphans", 60, 600)],
                            assumptions=["headers are delivered before bodies (as the property states); orphan capacity not reached"])
